@@ -1106,6 +1106,9 @@ class NumpyTensor(Tensor):
         else:
             if is_numeric_dtype(self.dtype):
                 weighting = self.space.weighting
+                if isinstance(weighting, ArrayWeighting):
+                    weighting = NumpyTensorSpaceArrayWeighting(
+                        weighting.array[indices], weighting.exponent)
             else:
                 weighting = None
             space = type(self.space)(
